@@ -144,10 +144,14 @@ func runCLI(c *core.Ctx) {
 		switch {
 		case i%15 == 14:
 			cliEmptyListPreview(c, runner, id, rng)
+		case i%15 == 6:
+			cliCSV(c, runner, id, rng, i*7, false)
+		case i%15 == 13:
+			cliCSV(c, runner, id, rng, i*7, true)
 		case i%2 == 0:
 			cliJSON(c, runner, id, rng)
 		default:
-			cliCSV(c, runner, id, rng)
+			cliCSV(c, runner, id, rng, -1, false)
 		}
 	})
 }
@@ -270,12 +274,23 @@ func describedString(d described) string {
 	return strings.Join(parts, ", ")
 }
 
-func cliCSV(c *core.Ctx, runner *cli.Runner, id string, rng *rand.Rand) {
-	cs := genCSVCase(rng, id)
+// cliCSV: shared >= 0 selects a shared-text file (shared.go) of that variant, as CSV or TSV.
+func cliCSV(c *core.Ctx, runner *cli.Runner, id string, rng *rand.Rand, shared int, tsv bool) {
+	var cs csvCase
+	name := "t.csv"
+	if shared >= 0 {
+		cs = genSharedCSVCase(rng, id, shared, tsv)
+		if tsv {
+			name = "t.tsv"
+		}
+		c.Count("cli/csv/shared_text_files", 1)
+	} else {
+		cs = genCSVCase(rng, id)
+	}
 	c.Eval(1)
 	c.Count("cli/csv/files", 1)
-	files := map[string][]byte{"t.csv": cs.f.Content}
-	sql := "SELECT * FROM t.csv"
+	files := map[string][]byte{name: cs.f.Content}
+	sql := "SELECT * FROM " + name
 	replay := map[string]interface{}{"id": id, "kind": "csv", "sql": sql, "rows": len(cs.f.Rows), "deviations": cs.devs, "file": trunc(string(cs.f.Content), 30000), "rerun": "./check C24 <tier> --only " + id}
 	d, dres, ok := describe(c, runner, sql, files, replay)
 	if !ok {
@@ -367,7 +382,7 @@ func cliCSV(c *core.Ctx, runner *cli.Runner, id string, rng *rand.Rand) {
 				_, ierr := strconv.ParseInt(cell, 10, 64)
 				_, ferr := strconv.ParseFloat(cell, 64)
 				numeric := (ierr == nil && fileh.AdmitsID(t, octosql.TypeIDInt)) || (ferr == nil && fileh.AdmitsID(t, octosql.TypeIDFloat))
-				if numeric && ((isStr && s == cell) || (dv == nil && t.TypeID == octosql.TypeIDUnion)) {
+				if !cs.shared && numeric && ((isStr && s == cell) || (dv == nil && t.TypeID == octosql.TypeIDUnion)) {
 					add("csv-inference-execution-parser-mismatch", desc)
 				} else {
 					add("csv:type-mismatch", desc)
